@@ -309,6 +309,31 @@ def _follow_single(B, o, through=("use", "ref", "cast")):
     while o["k"] in ("copy", "move") and seen < 20:
         seen += 1
         l = o["p"]["l"]
+        pr = o["p"]["p"]
+        # payload of a wrapper built in this body: `(x as Some).0` after `x = Some(v)` (also through whole-value moves of x and
+        # when x has another definition building the other variant) is v
+        if len(pr) >= 2 and isinstance(pr[0], dict) and "d" in pr[0] and isinstance(pr[1], dict) and "f" in pr[1]:
+            cands, moves = [], []
+            for (bi_, si_, kind_, pl_) in B.defs.get(l, []):
+                if kind_ != "assign" or pl_["lhs"]["p"]:
+                    cands.append(None)
+                    continue
+                rv_ = pl_["rv"]
+                if rv_["k"] == "agg" and rv_["ak"] == "adt":
+                    if rv_.get("variant") == pr[0]["d"] and pr[1]["f"] < len(rv_["ops"]):
+                        cands.append(rv_["ops"][pr[1]["f"]])
+                elif rv_["k"] == "use" and rv_["o"]["k"] in ("copy", "move"):
+                    moves.append(rv_["o"])
+                else:
+                    cands.append(None)
+            if len(cands) == 1 and cands[0] is not None and not moves:
+                nxt = cands[0]
+                o = nxt if len(pr) == 2 or nxt["k"] not in ("copy", "move") else {"k": nxt["k"], "p": {"l": nxt["p"]["l"], "p": nxt["p"]["p"] + pr[2:]}}
+                continue
+            if not cands and len(moves) == 1:
+                m = moves[0]
+                o = {"k": m["k"], "p": {"l": m["p"]["l"], "p": m["p"]["p"] + pr}}
+                continue
         d = B.single_def(l)
         if d is None:
             return None
